@@ -21,3 +21,117 @@ Proof.
   intros H. apply N.eqb_eq.
   apply (sweep256 (fun b => Z.to_N (wrapu 8 (g_c02_lower (wraps 8 (Z.of_N b)))) =? to_lower b)); [vm_compute; reflexivity|exact H].
 Qed.
+
+(* ------------------------------------------------------------------------------------------------------------------
+   private/string_map.h (string_map) and private/hash_map.h (string_hash): the integer leafs lifted from the CURRENT source
+   by checks/C02.py:smap_leaf_tu and translated by cxx2v (coq/gen/Gen_c02smap.v) equal the leafs of SMapDefs.v.
+   A change of the growth test (e.g. total_ >= data_.size(), with which the table can fill up completely and get() of an
+   absent key never returns), of the new size, of an initial size, of a probe start / step or of the hash breaks these. *)
+From CppcmsV Require Import Base.CSemFacts C02.SMapDefs gen.Gen_c02smap.
+Local Open Scope Z_scope.
+
+(* add(): if(total_ * 2 >= data_.size()) -- for every total below 2^63 (no wrap of the size_t product) and every size *)
+Lemma link_grow_needed (total size : nat) : Z.of_nat total < 2 ^ 63 ->
+  g_c02_grow (Z.of_nat total) (Z.of_nat size) = grow_needed total size.
+Proof.
+  intros H. unfold g_c02_grow, grow_needed.
+  rewrite wrapu64_small by (change (2 ^ 63) with 9223372036854775808 in H; lia).
+  destruct (Nat.leb_spec size (total * 2)) as [L|L]; [apply Z.geb_le|rewrite Z.geb_leb; apply Z.leb_gt]; lia.
+Qed.
+(* std::vector<entry> new_data(data_.size()*2) *)
+Lemma link_new_size (size : nat) : Z.of_nat size < 2 ^ 63 -> g_c02_newsize (Z.of_nat size) = Z.of_nat (size * 2).
+Proof.
+  intros H. unfold g_c02_newsize. rewrite wrapu64_small by (change (2 ^ 63) with 9223372036854775808 in H; lia). lia.
+Qed.
+(* data_.resize(64) in the constructor and in clear() *)
+Lemma link_initial_size : g_c02_init_ctor = Z.of_nat initial_cap /\ g_c02_init_clear = Z.of_nat initial_cap.
+Proof. split; reflexivity. Qed.
+(* int pos = e.hash % d.size()   (insert and get): hash a uint32, table smaller than 2^31 slots *)
+Lemma link_start_pos (h : N) (size : nat) : (h < 4294967296)%N -> (0 < size)%nat -> Z.of_nat size < 2 ^ 31 ->
+  g_c02_ins_start (Z.of_N h) (Z.of_nat size) = Z.of_nat (start_pos h size) /\
+  g_c02_get_start (Z.of_N h) (Z.of_nat size) = Z.of_nat (start_pos h size).
+Proof.
+  intros Hh Hs Hb. change (2 ^ 31) with 2147483648 in Hb.
+  assert (E : Z.rem (Z.of_N h) (Z.of_nat size) = Z.of_nat (start_pos h size)).
+  { unfold start_pos. rewrite Z.rem_mod_nonneg by lia. rewrite N_nat_Z, N2Z.inj_mod, nat_N_Z. reflexivity. }
+  assert (B : 0 <= Z.of_nat (start_pos h size) < Z.of_nat size).
+  { rewrite <- E. rewrite Z.rem_mod_nonneg by lia. apply Z.mod_pos_bound. lia. }
+  unfold g_c02_ins_start, g_c02_get_start. rewrite E.
+  rewrite wrapu64_small by lia. rewrite wraps32_small by lia. split; reflexivity.
+Qed.
+(* pos = (pos + 1) % d.size() *)
+Lemma link_next_pos (pos size : nat) : (pos < size)%nat -> Z.of_nat size < 2 ^ 31 ->
+  g_c02_ins_next (Z.of_nat pos) (Z.of_nat size) = Z.of_nat (next_pos pos size) /\
+  g_c02_get_next (Z.of_nat pos) (Z.of_nat size) = Z.of_nat (next_pos pos size).
+Proof.
+  intros Hp Hb. change (2 ^ 31) with 2147483648 in Hb.
+  assert (E : Z.rem (Z.of_nat pos + 1) (Z.of_nat size) = Z.of_nat (next_pos pos size)).
+  { unfold next_pos. rewrite Z.rem_mod_nonneg by lia. rewrite Nat2Z.inj_mod. f_equal. lia. }
+  assert (B : 0 <= Z.of_nat (next_pos pos size) < Z.of_nat size).
+  { rewrite <- E. rewrite Z.rem_mod_nonneg by lia. apply Z.mod_pos_bound. lia. }
+  unfold g_c02_ins_next, g_c02_get_next. rewrite (wrapu64_small (Z.of_nat pos + 1)) by lia. rewrite E.
+  rewrite wrapu64_small by lia. rewrite wraps32_small by lia. split; reflexivity.
+Qed.
+
+(* Z.of_N commutes with the bit operations used by the hash (not in the 8.16 library) *)
+Lemma of_N_land a b : Z.of_N (N.land a b) = Z.land (Z.of_N a) (Z.of_N b).
+Proof. destruct a, b; reflexivity. Qed.
+Lemma of_N_lxor a b : Z.of_N (N.lxor a b) = Z.lxor (Z.of_N a) (Z.of_N b).
+Proof. destruct a, b; reflexivity. Qed.
+Lemma of_N_shiftl a n : Z.of_N (N.shiftl a n) = Z.shiftl (Z.of_N a) (Z.of_N n).
+Proof. rewrite N.shiftl_mul_pow2, Z.shiftl_mul_pow2 by lia. rewrite N2Z.inj_mul, N2Z.inj_pow. reflexivity. Qed.
+Lemma of_N_shiftr a n : Z.of_N (N.shiftr a n) = Z.shiftr (Z.of_N a) (Z.of_N n).
+Proof. rewrite N.shiftr_div_pow2, Z.shiftr_div_pow2 by lia. rewrite N2Z.inj_div, N2Z.inj_pow. reflexivity. Qed.
+(* string_hash::update_state on a uint32 state and a byte (the char parameter is signed: the byte b arrives as wraps 8 b) *)
+Lemma wrapu8_wraps8 z : 0 <= z < 256 -> wrapu 8 (wraps 8 z) = z.
+Proof. intros H. unfold wrapu, wraps. change (2 ^ 8) with 256. change (2 ^ (8 - 1)) with 128. lia. Qed.
+Lemma link_hash_update (st b : N) : (b < 256)%N ->
+  g_c02_update_state (Z.of_N st) (wraps 8 (Z.of_N b)) = Z.of_N (elf_update st b).
+Proof.
+  intros Hb. unfold g_c02_update_state, elf_update. rewrite wrapu8_wraps8 by lia.
+  unfold wrapu. change (2 ^ 32) with 4294967296.
+  set (v := N.modulo (N.shiftl st 4 + b) 4294967296).
+  assert (Ev : ((Z.shiftl (Z.of_N st) 4) mod 4294967296 + Z.of_N b) mod 4294967296 = Z.of_N v).
+  { unfold v. rewrite N2Z.inj_mod, N2Z.inj_add, of_N_shiftl. change (Z.of_N 4294967296) with 4294967296.
+    change (Z.of_N 4) with 4. rewrite Zplus_mod_idemp_l. reflexivity. }
+  rewrite Ev.
+  assert (Bv : 0 <= Z.of_N v < 4294967296).
+  { split; [lia|]. unfold v. change 4294967296 with (Z.of_N 4294967296). apply N2Z.inj_lt. apply N.mod_lt. discriminate. }
+  set (high := N.land v 4026531840).
+  assert (Eh : (Z.land (Z.of_N v) 4026531840) mod 4294967296 = Z.of_N high).
+  { unfold high. rewrite of_N_land. change (Z.of_N 4026531840) with 4026531840. apply Z.mod_small.
+    split; [apply Z.land_nonneg; lia|].
+    destruct (Z.eq_dec (Z.land (Z.of_N v) 4026531840) 0) as [E0|N0]; [rewrite E0; reflexivity|].
+    assert (0 <= Z.land (Z.of_N v) 4026531840) by (apply Z.land_nonneg; lia).
+    change 4294967296 with (2 ^ 32). apply Z.log2_lt_pow2; [lia|].
+    eapply Z.le_lt_trans; [apply Z.log2_land; lia|]. eapply Z.le_lt_trans; [apply Z.le_min_r|]. reflexivity. }
+  rewrite Eh.
+  assert (Bh : 0 <= Z.of_N high < 4294967296).
+  { rewrite <- Eh. apply Z.mod_pos_bound. lia. }
+  destruct (N.eqb_spec high 0) as [Z0|NZ0].
+  - rewrite Z0. reflexivity.
+  - replace (Z.of_N high =? 0) with false by (symmetry; apply Z.eqb_neq; lia). cbn [negb].
+    rewrite !of_N_lxor, of_N_shiftr. change (Z.of_N 24) with 24.
+    assert (Bs : 0 <= Z.shiftr (Z.of_N high) 24 < 4294967296).
+    { rewrite Z.shiftr_div_pow2 by lia. split; [apply Z.div_pos; lia|]. apply Z.div_lt_upper_bound; lia. }
+    rewrite (Z.mod_small (Z.shiftr (Z.of_N high) 24)) by exact Bs.
+    assert (X : forall a c, 0 <= a < 4294967296 -> 0 <= c < 4294967296 -> 0 <= Z.lxor a c < 4294967296).
+    { intros a c Ha Hc. change 4294967296 with (2 ^ 32). split; [apply Z.lxor_nonneg; lia|].
+      destruct (Z.eq_dec (Z.lxor a c) 0) as [E0|N0]; [rewrite E0; reflexivity|].
+      apply Z.log2_lt_pow2; [assert (0 <= Z.lxor a c) by (apply Z.lxor_nonneg; lia); lia|].
+      eapply Z.le_lt_trans; [apply Z.log2_lxor; lia|].
+      apply Z.max_lub_lt; (destruct (Z.eq_dec a 0) as [->|]; destruct (Z.eq_dec c 0) as [->|]; try (cbn; lia);
+        apply Z.log2_lt_pow2; change (2 ^ 32) with 4294967296; lia). }
+    rewrite (Z.mod_small (Z.lxor (Z.of_N v) _)) by (apply X; assumption).
+    apply Z.mod_small. apply X; [apply X; assumption|assumption].
+Qed.
+Lemma link_hash_initial : g_c02_initial_state = 0.
+Proof. reflexivity. Qed.
+(* entry::calc_hash: the loop over the C string is the left fold of update_state from initial_state *)
+Lemma link_smap_hash (k : list N) : bytes_ok k ->
+  fold_left (fun h b => g_c02_update_state h (wraps 8 (Z.of_N b))) k g_c02_initial_state = Z.of_N (smap_hash k).
+Proof.
+  unfold smap_hash. rewrite link_hash_initial. change 0 with (Z.of_N 0). generalize 0%N as h.
+  induction k as [|b k IH]; intros h Hk; [reflexivity|]. apply bytes_ok_cons in Hk. destruct Hk as [Hb Hk].
+  cbn [fold_left]. rewrite link_hash_update by exact Hb. apply IH. exact Hk.
+Qed.
